@@ -31,11 +31,11 @@ impl Property for C07 {
     fn id(&self) -> &'static str { "C07" }
     fn level(&self) -> &'static str { "exploration" }
     fn rule(&self) -> &'static str {
-        "3-4 real ShardReplicaState replicas (Eventual or Causal) issue SET (with/without expiry), DEL, HSET, HDEL on 1-3 shared keys and apply each other's deltas in tape-chosen orders with duplicates; counters/sets are built with their public mutators on several replica ids and given stamps unique per replica. Laws (commutativity, associativity, idempotence) are evaluated on tape-chosen pairs/triples of harvested values (deltas, replica states, merges thereof) by comparing the full observable projection; twin replicas fed the same multiset in different orders are compared too. Non-trivial = instance has >= 2 distinct stamps; distinct = fingerprint of the projected operands"
+        "3-4 real ShardReplicaState replicas (Eventual or Causal) issue SET (with/without expiry), DEL, HSET, HDEL on 1-3 shared keys and apply each other's deltas in tape-chosen orders with duplicates; counters/sets are built with their public mutators on several replica ids and given stamps unique per replica, and additionally evolved as 2-3 replicas that add/remove/increment with their own id and merge each other's current state (every intermediate state harvested). Laws (commutativity, associativity, idempotence) are evaluated on tape-chosen pairs/triples of harvested values (deltas, replica states, merges thereof) by comparing the full observable projection; twin replicas fed the same multiset in different orders are compared too. Non-trivial = instance has >= 2 distinct stamps; distinct = fingerprint of the projected operands"
     }
     fn components_real(&self) -> Vec<&'static str> { vec!["replication::state::ShardReplicaState::{record_write,record_delete,record_hash_write,record_hash_delete,apply_remote_delta}", "ReplicatedValue::merge", "CrdtValue::merge_with_timestamps", "lattice::{LwwRegister,GCounter,PNCounter,GSet,ORSet,VectorClock,LamportClock}::merge"] }
     fn components_stubbed(&self) -> Vec<&'static str> { vec!["network: deltas are handed over in memory in tape-chosen order (no gossip transport in this check; C06 runs that)"] }
-    fn required_probes(&self) -> Vec<&'static str> { vec!["law_instance_mixed_types", "law_instance_equal_time_different_replica", "twin_order_compared"] }
+    fn required_probes(&self) -> Vec<&'static str> { vec!["law_instance_mixed_types", "law_instance_equal_time_different_replica", "twin_order_compared", "crdt_history_group"] }
     fn runs(&self, tier: Tier) -> u64 { match tier { Tier::Quick => 4000, Tier::Thorough => 400_000 } }
 
     fn run(&self, src: &mut Src, ctx: &RunCtx) -> RunReport {
@@ -99,6 +99,37 @@ impl Property for C07 {
             vals.push(v);
         }
         if vals.len() >= 2 { groups.push(vals.clone()); }
+        // ---- replicated counters/sets with real histories: each replica mutates its own copy with its own
+        // id and now and then merges a peer's current state; every intermediate state is harvested
+        {
+            let kind = src.below(4);
+            let nr = 2 + src.below(2) as usize;
+            let mut states: Vec<CrdtValue> = (0..nr).map(|_| match kind { 0 => CrdtValue::ORSet(ORSet::new()), 1 => CrdtValue::GCounter(GCounter::new()), 2 => CrdtValue::PNCounter(PNCounter::new()), _ => CrdtValue::GSet(GSet::new()) }).collect();
+            let mut harvested: Vec<ReplicatedValue> = Vec::new();
+            let mut t = 500u64;
+            let ops = src.list(16, 11, 12, |s| (s.idx(nr), s.below(6), s.below(3), s.idx(nr)));
+            for (r, op, e, peer) in ops {
+                let rid = ReplicaId::new(r as u64 + 1);
+                let elem = format!("e{}", e);
+                if op >= 4 && peer != r {
+                    let other = states[peer].clone();
+                    if let Ok(m) = states[r].try_merge(&other) { states[r] = m; }
+                } else {
+                    match &mut states[r] {
+                        CrdtValue::ORSet(o) => { if op == 3 { o.remove(&elem); } else { o.add(elem, rid); } }
+                        CrdtValue::GCounter(g) => g.increment_by(rid, 1 + op),
+                        CrdtValue::PNCounter(p) => { if op % 2 == 0 { p.increment_by(rid, 1 + op) } else { p.decrement_by(rid, 1 + op) } }
+                        CrdtValue::GSet(g) => { g.add(elem); }
+                        _ => {}
+                    }
+                }
+                t += 1;
+                let mut v = ReplicatedValue::with_crdt(states[r].clone(), rid);
+                v.timestamp = LamportClock { time: t, replica_id: rid };
+                harvested.push(v);
+            }
+            if harvested.len() >= 2 { rep.probe("crdt_history_group"); groups.push(harvested); }
+        }
         for g in &groups { vals.extend(g.iter().cloned()); }
         if groups.is_empty() { rep.evals = 1; return rep; }
         // ---- phase 2: twin replicas, same multiset, different order (+ duplicates)
